@@ -10,6 +10,13 @@ open Rigo
 /-- validator lists hold every address at most once -/
 def DistinctD (ds : List Delegatee) : Prop := ds.Pairwise (fun a b => a.addr ≠ b.addr)
 
+theorem perm_sum_int {a b : List Int} (h : a.Perm b) : a.sum = b.sum := by
+  induction h with
+  | nil => rfl
+  | cons x _ ih => simp [ih]
+  | swap x y l => simp only [List.sum_cons]; omega
+  | trans _ _ ih1 ih2 => rw [ih1, ih2]
+
 theorem snapshot_voters_perm (s : St) (tx : TxIn) (a b c d : Int) (opts : List VoteOpt) :
     (snapshotProposal s tx a b c d opts).voters.Perm (s.lastVals.map fun v => ({ addr := v.addr, power := v.total } : Voter)) :=
   List.mergeSort_perm _ _
@@ -57,7 +64,7 @@ theorem snapshot_ok (s : St) (tx : TxIn) (a b c d : Int) (opts : List VoteOpt) (
   · show (s.lastVals.map (·.total)).sum = _
     have := (snapshot_voters_perm s tx a b c d opts).map (·.power)
     unfold powerSum wsum
-    rw [this.sum_eq]
+    rw [perm_sum_int this]
     simp [List.map_map, Function.comp_def]
 
 end Rigo.C15
